@@ -3,7 +3,7 @@
 //! `RightAlignWriter`, `is_char_boundary`, `char_starts` (door-opener `verif_encode_padded`).
 use crate::sym;
 use log::Record;
-use log4rs::encode::pattern::{verif_encode_padded, VerifSpec};
+use log4rs::encode::pattern::{verif_encode_field, verif_encode_padded, VerifSpec};
 use log4rs::encode::{Style, Write as EncWrite};
 use std::io;
 
@@ -149,9 +149,17 @@ pub fn body(fill: char, right: bool, has_min: bool, has_max: bool, nsc: usize, n
         max_width: if has_max { Some(mx) } else { None },
     };
     let mut sink = Sink { buf: [0; OUTCAP], len: 0, short };
-    let record = Record::builder().build();
-    let pieces: [&str; 3] = [p0, p1, p2];
-    let res = verif_encode_padded(&mut sink, &record, &pieces[..npieces.max(1)], spec, None);
+    // The text reaches the real Chunk::encode through a chunk built on the stack (no heap-stored
+    // chunk list): as the record's target (one write) or as its message `{}{}{}` (one write per
+    // piece).
+    let _ = (p2, npieces);
+    let res = if npieces <= 1 {
+        let whole = unsafe { std::str::from_utf8_unchecked(&text[..tl]) };
+        verif_encode_field(&mut sink, &Record::builder().target(whole).build(), false, spec)
+    } else {
+        let rest = unsafe { std::str::from_utf8_unchecked(&text[b1..tl]) };
+        verif_encode_field(&mut sink, &Record::builder().args(format_args!("{}{}", p0, rest)).build(), true, spec)
+    };
     assert!(res.is_ok());
 
     // ---- reference on scalar arrays: first M scalars, padded to m on the chosen side ----
